@@ -26,7 +26,7 @@ def scenario(beh, stream, kind, seed, flight="app"):
     the bytes satisfy it; None when 30 draws do not."""
     for k in range(30):
         sc = _scenario(beh, stream, kind, seed + 7919 * k, flight)
-        if bogus_over(sc):
+        if sc is not None and bogus_over(sc):
             return sc
     return None
 
@@ -85,6 +85,13 @@ def _scenario(beh, stream, kind, seed, flight="app"):
     else:
         first = [r.idx for r in c.records if r.kind == "SH"][0]
     cd["sched"] = dict(dir=fdir, first_rec=first, cells=list(stream), hist=beh["hist"], released=beh.get("released"), garbage=beh.get("garbage"))
+    # a record whose body has fewer bytes than the abstract stream gives it cells (a 1-byte ChangeCipherSpec) would map several cells to the same
+    # byte offset: the concrete schedule would then not be the abstract one (segments of zero bytes, a wrap position shared by several cells) -- such
+    # pairings are not concretized
+    from harness.tlsrun import sched_segments as _ss
+    _segs, _cm = _ss(c, 0, cd["sched"])
+    if any(b <= a for a, b in zip(_cm, _cm[1:])):
+        return None
     # sequence-number wrap position: spec key = (isn + cell) % Mod  ->  concrete ISN so that 2^32 falls on that cell
     mod, isn = beh.get("mod", 0), beh.get("isn", 0)
     total_cells = sum(5 + b for b in stream)
